@@ -20,7 +20,8 @@ Inductive cop :=
 | cStart (bk hid un res : N)                        (* Resolve / AddRequest of (bk, hid); counts after *)
 | cData (pid out un res : N) (newk : list N)        (* OnData(payload): result class 0 ok / 1 NoRequester / 2 other,
                                                        counts after, buckets in which (bucket, H payload) became readable *)
-| cFail (pid i un res : N) (newk : list N)          (* OnData whose i-th database write (0-based) failed: an error was returned *)
+| cFail (pid i k1 un res : N) (newk : list N)       (* OnData that failed at requester i (0-based): k1 = 0 its database write failed,
+                                                       k1 = n+1 it returned an error after registering n references *)
 | cNoH (pid un res : N)                             (* OnData under a bucket without hasher -> ErrNoHasher *)
 | cFlush                                            (* Flush(true) returned nil *)
 | cDataQ (pid : N)                                  (* OnData inside syncProcessor.HandleData: not observed individually *)
@@ -108,8 +109,9 @@ Section Tbl.
              | Some bs => subset bs newk && subset newk bs
              | None => false
              end)
-    | cFail pid i un res newk =>
-        let r := on_data_fail tH tC s [pid] (N.to_nat i) in
+    | cFail pid i k1 un res newk =>
+        let k := if k1 =? 0 then None else Some (N.to_nat (k1 - 1)) in
+        let r := on_data_fail tH tC s [pid] (N.to_nat i) k in
         let s' := fst r in
         (s', (out_code (snd r) =? 2) && counts_ok s' un res &&
              match new_buckets (tH [pid]) s s' with
@@ -252,7 +254,10 @@ Fixpoint p_ops (fuel : nat) (s : list N) : option (list cop) :=
                       match r3 with
                       | d :: e :: r4 =>
                           if o =? 2 then k (cData a b c d (mask_list e)) r4 else
-                          if o =? 10 then k (cFail a b c d (mask_list e)) r4 else None
+                          match r4 with
+                          | g :: r5 => if o =? 10 then k (cFail a b c d e (mask_list g)) r5 else None
+                          | [] => None
+                          end
                       | _ => None
                       end
                   end
